@@ -209,6 +209,8 @@ pub struct Cfg {
     pub real_transit: bool,
     pub leaf_gate: bool,
     pub label: &'static str,
+    /// an OpenTelemetry subscriber is installed: the transmitted trace id comes from the span context
+    pub otel: bool,
 }
 impl Cfg {
     pub fn random(seed: u64) -> Cfg {
@@ -229,13 +231,14 @@ impl Cfg {
             real_transit: r.chance(1, 30),
             leaf_gate: true,
             label: "random",
+            otel: false,
         }
     }
     pub fn to_json(&self) -> serde_json::Value {
         json!({"family": "S-e2e", "label": self.label, "seed": self.seed, "depth": self.depth,
             "transports": format!("{:?}", self.transports), "ncalls": self.ncalls,
             "deadlines_ms(None=expired)": format!("{:?}", self.deadlines), "abandon_pct": self.abandon_pct,
-            "max_chunk": self.max_chunk, "pending_pct": self.pending_pct, "real_transit": self.real_transit})
+            "max_chunk": self.max_chunk, "pending_pct": self.pending_pct, "real_transit": self.real_transit, "otel_subscriber": self.otel})
     }
 }
 
@@ -646,6 +649,11 @@ async fn run_inner(cfg: &Cfg, out: &mut Outcome) {
                 tb[..8].copy_from_slice(&(0xE2E0_0000u64 + n as u64).to_le_bytes());
                 tb[8..].copy_from_slice(&cfg.seed.to_le_bytes());
                 ctx.trace_context.trace_id = trace::TraceId::from(u128::from_le_bytes(tb));
+                if n == 2 {
+                    // boundary: the all-zero trace id (sampled, since n is even)
+                    ctx.trace_context.trace_id = trace::TraceId::from(0u128);
+                    out.cell("C18.boundary-trace-id");
+                }
                 ctx.trace_context.span_id = trace::SpanId::from(0x9000 + n as u64);
                 ctx.trace_context.sampling_decision = if n % 2 == 0 { trace::SamplingDecision::Sampled } else { trace::SamplingDecision::Unsampled };
                 let ch = head.as_ref().unwrap().clone();
@@ -706,7 +714,9 @@ async fn run_inner(cfg: &Cfg, out: &mut Outcome) {
         }
     }
     out.sig = h;
+    let extra_trace = std::mem::take(&mut out.trace);
     out.trace = tlog;
+    out.trace.extend(extra_trace);
     tasks.clear();
 }
 
@@ -782,6 +792,7 @@ fn final_oracles(cfg: &Cfg, sh: &Rc<RefCell<Shared>>, calls: &[CallRec], log: &W
         // request items of this call on each link (client end writes)
         let mut prev_deadline = c.deadline;
         let mut acc_upper = Duration::ZERO;
+        let mut first_wire_trace: Option<trace::Context> = None;
         for hop in 0..cfg.depth {
             let sent = log.iter().find(|e| e.link == hop && e.c2s && e.send && matches!(&e.item, Item::Req { body, .. } if *body == c.body));
             let recv = log.iter().find(|e| e.link == hop && e.c2s && !e.send && matches!(&e.item, Item::Req { body, .. } if *body == c.body));
@@ -792,10 +803,22 @@ fn final_oracles(cfg: &Cfg, sh: &Rc<RefCell<Shared>>, calls: &[CallRec], log: &W
             let (Some(sent), Some(recv)) = (sent, recv) else { break };
             let (Item::Req { trace: wt, id: wid, .. }, Item::Req { deadline: rd, trace: rt, .. }) = (&sent.item, &recv.item) else { break };
             let serde_link = matches!(cfg.transports[hop], Tk::Json | Tk::Bincode);
-            // C18: the wire carries the caller's trace id and sampling; span id fresh per hop
-            let expect_trace = c.trace;
+            // C18: without a subscriber the wire carries the caller's trace id and sampling; in every
+            // mode each further hop carries what the first hop transmitted; span id fresh per hop
+            let expect_trace = if hop == 0 {
+                if cfg.otel {
+                    *wt
+                } else {
+                    c.trace
+                }
+            } else {
+                first_wire_trace.unwrap_or(c.trace)
+            };
+            if hop == 0 {
+                first_wire_trace = Some(*wt);
+            }
             if wt.trace_id != expect_trace.trace_id || wt.sampling_decision != expect_trace.sampling_decision {
-                out.viol("C18", "wire-trace-differs", format!("call {} hop {hop}: Request transmitted with trace {:?}/{:?}, the head caller supplied {:?}/{:?}", c.body, wt.trace_id, wt.sampling_decision, expect_trace.trace_id, expect_trace.sampling_decision));
+                out.viol("C18", "wire-trace-differs", format!("call {} hop {hop}: Request transmitted with trace {:?}/{:?}, expected {:?}/{:?} ({})", c.body, wt.trace_id, wt.sampling_decision, expect_trace.trace_id, expect_trace.sampling_decision, if hop == 0 { "what the head caller supplied" } else { "what the previous hop transmitted" }));
             }
             if rt.trace_id != wt.trace_id || rt.span_id != wt.span_id || rt.sampling_decision != wt.sampling_decision {
                 out.viol("C15", "trace-context-altered-in-transit", format!("call {} hop {hop}: trace context written {wt:?}, read {rt:?}", c.body));
@@ -918,6 +941,20 @@ fn final_oracles(cfg: &Cfg, sh: &Rc<RefCell<Shared>>, calls: &[CallRec], log: &W
     out.count("wire_events", log.len() as u64);
     out.count("handler_events", s.hev.len() as u64);
     out.cell(format!("e2e.depth{}", cfg.depth));
+    if cfg.otel {
+        out.cell("C18.otel-subscriber");
+        // keep the wire view of the requests in the witness
+        for e in log.iter().filter(|e| e.c2s && e.send) {
+            if let Item::Req { id, body, trace, .. } = &e.item {
+                out.trace.push(format!("   wire link{} Request id={id} body={body} trace={:?} span={:?}", e.link, trace.trace_id, trace.span_id));
+            }
+        }
+        for e in s.hev.iter() {
+            if let HEv::Start { hop, call, trace, .. } = e {
+                out.trace.push(format!("   handler hop{hop} call={call} ctx.trace={:?} span={:?}", trace.trace_id, trace.span_id));
+            }
+        }
+    }
 }
 
 fn same_item(a: &Item, b: &Item) -> bool {
